@@ -229,6 +229,10 @@ class ContainerCodec(Codec):
                     if isinstance(k, tuple):
                         msg = "Tuple keys not supported"
                         raise SerDesError(msg)
+                    if not isinstance(k, str):
+                        # json would silently coerce int/float/bool/None keys to strings
+                        msg = f"Only string keys are supported, got {type(k)!r}"
+                        raise SerDesError(msg)
                 return EncodedValue(
                     TypeTag.DICT,
                     {k: self._wrap(v, self.dispatcher) for k, v in obj.items()},
